@@ -87,13 +87,13 @@ RULE = {
            "descriptor limit, no descriptor left open; (2) getPathName(join(d,n))==n, getParentDirectory(join(d,n))==d minus one trailing '/', join(x,'/abs')=='/abs', join('',y)==y, ASan on "
            "every string; (3) after restore()/destruction the cwd is what it was immediately before the visitor's last effective visit(). Non-trivial = a tree with >=2 levels, an empty "
            "directory and a non-ASCII name, or a string law on a directory with a trailing separator / absolute. Distinct = distinct case text.",
-    "C19": "rapidcheck builds locale strings from pieces: (language by code | by name) _ (country by code | by name) [. charset] over the public tables; near misses (case changes, "
+    "C19": "rapidcheck builds locale strings from pieces: (per case 5 calls in one process: the string, string+x, string minus its last byte, string+.UTF-8, the string again - each answer checked against the tables; long names favoured so that strings of 63+ bytes resolve) (language by code | by name) _ (country by code | by name) [. charset] over the public tables; near misses (case changes, "
            "truncated/extended names, unknown codes, empty parts); structure breakers (no '_', '.' before '_', several of each, only delimiters); fillers of 1..300 bytes incl. "
            "63/64/65; arbitrary byte strings. Oracle: independent split and linear table lookup -> exact expected Info (by code: all table names of the code; by name: the name and only "
            "names of its code; otherwise exactly en/{English}/GB/United Kingdom with error set), pointers compared by content; result built in 0xA5-poisoned storage after poisoning the "
            "stack (an unwritten field is the poison value); exact-size heap copy of the input under ASan. Non-trivial = the input has both delimiters and at least one part that is a "
            "table entry, or a part of >= 64 bytes. Distinct = distinct case text.",
-    "C14": "rapidcheck generates histories (<=60 ops quick, <=200 thorough) over a pool of 4 tulz::Array<int> / Array<lifetime-tracked class>: construction from pointer+length "
+    "C14": "rapidcheck generates histories (<=60 ops quick, <=200 thorough) over a pool of 4 tulz::Array<int> / Array<lifetime-tracked class>: (initializer lists are read twice in half of the cases: two arrays from one list object) construction from pointer+length "
            "(copy, and adopting a malloc'ed block), initializer list (0-8), size, size+value, default; copy/move construct and assign, self-assignment, swap, resize(n), "
            "resize(n, v), element writes through operator[]/iterator/front/back, destroy; lengths 0-40 (thorough 0-2000). Oracle: std::vector<std::optional<int>> model "
            "(indeterminate for int slots left uninitialised) compared after every op through size/operator[]/array()/iteration; distinct arrays never share storage; "
@@ -135,7 +135,7 @@ RULE = {
            "Each program is repeated 3-12 times in one ThreadSanitizer process with generated sched_yield/usleep noise. Oracle: ThreadSanitizer (halt_on_error); a report counts if a frame "
            "lies in tulz::, a race between harness frames only is an internal error. Non-trivial = >=2 threads were inside tulz calls at the same time (atomic in/out counters); "
            "pool family: a worker expired or stop() met a live worker. Distinct = distinct case text.",
-    "C11": SCHED + "Programs: 2-4 threads, <=28 ops (thorough 44) from {notify(pattern), subscribe(key), unsubscribe (own handle), shrink(pattern), exists(pattern), depth()} on one "
+    "C11": SCHED + "Programs: 2-4 threads, <=28 ops (thorough 44) (user code run under the write lock lingers for one scheduling point and must be alone: writer-writer as well as writer-delivery exclusion) from {notify(pattern), subscribe(key), unsubscribe (own handle), shrink(pattern), exists(pattern), depth()} on one "
            "ConcurrentSubjectRouter over keys of depth <=2 with names {a,b} and wildcard levels, 0-3 pre-populated subscriptions; callbacks log ENTER/EXIT and yield inside, they never call "
            "the router. Oracle: no user code run under the write lock (callable moved in during subscribe, observer destroyed during unsubscribe) executes while a callback is in progress and "
            "no subscribe/unsubscribe/shrink starts and returns within one callback execution; no invocation after unsubscribe() returned; every notify has an instant in [call,return] with "
